@@ -27,6 +27,10 @@ def run(ctx):
         inputs.append(t + ' <<NEVER\nbody\n'); inputs.append(t + ' <<-NEVER\n\tbody')
         if x < 0.3: inputs.append('{ ' + t + ' <<NEVER\n}\nbody\n')
         elif x < 0.5: inputs.append(t + ' <<A <<B\nx\nA\ny\n')
+    # rare token kinds as the offending token: named file descriptors, numbers, assignments, reserved words in odd places
+    for ctxt in ['for %s', 'for a %s', 'a > %s', 'case %s', 'function %s', 'select %s', 'a | %s x', '%s', 'if %s', 'a && %s )', 'f() %s', 'a <<E %s )\nE\n', '( %s', '{ %s; ) }']:
+        for tokn in ['{x}>f', '{fd}<g', '{v}>>h', '{_a}>&2', '0>x', '00<x', '7>&-', 'a=1', 'a+=(b)', 'then', 'do', '}', ';;', '&>f', '<<<w', '|&', '!', 'time']:
+            inputs.append(ctxt % tokn)
     inputs = common.dedup(inputs)
     if ctx.get('replay'):
         inputs = [json.load(open(ctx['replay']))['input']]
